@@ -97,6 +97,10 @@ def parse_tlc_log(path):
     if re.search(r'^Error:', txt, re.M):
         i = txt.find('Error:')
         st['error'] = txt[i:i + 1500]
+    st['init'] = 0
+    m = re.search(r'Finished computing initial states: (\d+) distinct state', txt)
+    if m:
+        st['init'] = int(m.group(1))
     st['simulated'] = 0
     m = re.search(r'(\d+) traces generated', txt)
     if m:
